@@ -273,12 +273,15 @@ CHECKS = {
 
 EXTRA = {'C01': 'Each configuration additionally runs with failing appenders (none / all / one): deliveries are unchanged '
         'and the error handler is called once per failed delivery (Reported). Strict and lossy builds alternate; a '
-        'third of the builds give the root its level afterwards through Config::root_mut().',
+        'third of the builds give the root its level afterwards through Config::root_mut(). Scale: 255 .. 65537 '
+        'configured sibling loggers.',
  'C03': 'Sinks are Append implementors and log::Log implementors attached through the blanket adapter (whose own '
         'enabled() says no); builder styles filter()/filters() are mixed. The real ThresholdFilter takes Neutral / '
         'Reject positions inside scripted chains; a child process counts the calls of the handler given to '
-        'init_config_with_err_handler across reconfigurations.',
- 'C04': ' Truncate-mode scenarios get a successor appender as well.',
+        'init_config_with_err_handler across reconfigurations. Scale: 255 .. 70001 declared appenders with '
+        'attachments around 2^8 / 2^16.',
+ 'C04': ' Truncate-mode scenarios get a successor appender as well. Every fourth scenario hands over to a successor '
+        'appender opened on the same path while the first was alive; one long lifetime (180 records) per batch.',
  'C05': 'The replay materialises every behaviour five times: 10-byte units with DeleteRoller, 400-byte units with a '
         'two-chunk encoder (straddling the 1 KiB BufWriter), 16-byte units with gzip archives and an appender built '
         'from a configuration value, 12-byte units with the index in a directory component of the archive pattern, '
@@ -287,7 +290,11 @@ EXTRA = {'C01': 'Each configuration additionally runs with failing appenders (no
         'BufWriter capacity as a parameter. Recorded traces of 2-4 real threads (and one long lifetime of 320 / 2400 '
         'records per batch) are validated against the same specification (Trace_Rolling.tla). Rolling.tla also has '
         'archives found at first build (PreArch), a user-defined roller that leaves the file in place (noop), and '
-        'write calls cut short by the operating system (EncFail with os).',
+        'write calls cut short by the operating system (EncFail with os). Rolling.tla also has Overlap (a successor '
+        'appender built while its predecessor is alive). The unperturbed behaviours run a second time on a harness '
+        "build with log4rs's background_rotation feature (BackgroundRotation.tla: step-wise rotation threads, "
+        'restarts inside one process, liveness), and long behaviours (400 / 1000 records with faults, crashes, '
+        'restarts, obstacles, encoder failures, overlaps) are sampled with TLC -simulate.',
  'C06': 'The replay materialises every behaviour five times: 10-byte units with DeleteRoller, 400-byte units with a '
         'two-chunk encoder (straddling the 1 KiB BufWriter), 16-byte units with gzip archives and an appender built '
         'from a configuration value, 12-byte units with the index in a directory component of the archive pattern, '
@@ -295,44 +302,59 @@ EXTRA = {'C01': 'Each configuration additionally runs with failing appenders (no
         'fallback). Rolling.tla also has encoder failures (EncFail: part of a record written, then Err) with the '
         'BufWriter capacity as a parameter. Write calls cut short by the operating system are replayed under a file '
         'size limit (600-byte units, one history at a time); limits at the top of the u64 range; recorded '
-        'multi-thread traces.',
+        'multi-thread traces. The chunked encoder uses write_all / write_vectored / write / write_fmt in turn; long '
+        'behaviours are sampled with TLC -simulate.',
  'C07': 'A .gz archive must be exactly one gzip member (bytes after it count as corruption); windows are also placed '
         'at the top of the u32 index range; rollers are built through the builder and from configuration values. A '
-        'seventh template has the rolled file on another filesystem; windows of four are in the quick tier.',
+        'seventh template has the rolled file on another filesystem; windows of four are in the quick tier. The env '
+        "template's variable value contains the index placeholder, a sixth template has the index inside a variable "
+        'name; windows straddle 2^8 and 2^16.',
  'C08': 'The replay materialises every behaviour five times: 10-byte units with DeleteRoller, 400-byte units with a '
         'two-chunk encoder (straddling the 1 KiB BufWriter), 16-byte units with gzip archives and an appender built '
         'from a configuration value, 12-byte units with the index in a directory component of the archive pattern, '
         'and 14-byte units with the active file and the archives on different filesystems (rename fails, copy '
         'fallback). Rolling.tla also has encoder failures (EncFail: part of a record written, then Err) with the '
-        'BufWriter capacity as a parameter. Instances with archives found at first build (PreArch).',
+        'BufWriter capacity as a parameter. Instances with archives found at first build (PreArch). With a .gz '
+        'pattern (constant Gz) the final step is FsOps!Compress and a name that cannot be written (a link to '
+        '/dev/full) is an obstacle kind; long behaviours are sampled with TLC -simulate.',
  'C09': "DateZone.tla adds the environment's local zone as state: histories in which the zone changes between the "
         'construction of an encoder and its use and between two uses (4 POSIX zones, 4 date kinds) are replayed on '
         'fresh threads and, for a few, on a single thread. Fragments.tla (the message is the concatenation of the '
         'fragments it arrives in), FieldWidths.tla (record fields at the edges of their types under width specs) and '
-        "DateZone's logical clock (fractional-second dates are read per encode) run in the same check.",
+        "DateZone's logical clock (fractional-second dates are read per encode) run in the same check. The process "
+        'is environment state, too (Fork): histories continued in forked children for {P} / {pid}. Sinks accept '
+        'prefixes and interrupt calls.',
  'C10': 'Every length class is instantiated by code points at the edges of its UTF-8 range (first / last lead byte, '
         'first / last continuation byte); fill characters of 1, 2 and 3 bytes; every third case builds the encoder '
         'from a configuration value. Every third case has multi-byte literal text in front of the spec; an earlier '
-        'record of the same thread fails half-way before each case.',
+        'record of the same thread fails half-way before each case. Sink scripts include interrupted calls (accept '
+        'value 0).',
  'C11': 'The curated family includes alignment nested in alignment (re-entrant width writers); every fourth case '
         'encodes into a sink that accepts only a prefix per write call. FieldWidths.tla runs in the same check; the '
-        'family has absurd widths on literal-only and nested groups.',
+        'family has absurd widths on literal-only and nested groups. Placeholders stand for 2- and 3-byte '
+        'representatives in turn.',
  'C12': 'Sinks accept everything, one byte, three bytes or 7/1/64 bytes per write call; every other record uses an '
         'encoder built from a configuration value; an earlier record of the same thread fails part-way into its '
         'sink. A style request from the JSON encoder is a violation; Fragments.tla runs in the same check; the '
-        'two-byte class includes C1 controls.',
+        'two-byte class includes C1 controls. Records with fields of 255 .. 70001 characters are added beyond the '
+        "model's length bound; sinks interrupt calls.",
  'C13': 'The declarations reach the builders one at a time, in bulk and in mixtures of both (appender()/appenders(), '
         'logger()/loggers(), and the same for references). Every other case renames the appender namespace onto the '
         'strings logger names are made of.',
  'C14': 'Registry.tla (insert / clone / lookup of deserializers per trait and kind, 192k histories) is replayed on '
         'log4rs::config::Deserializers in the same run. Wrong-typed kinds at every level; a zero limit as a bare '
-        'integer; ConfigFormat.tla (which reader a file name gets) runs in the same check.',
+        'integer; ConfigFormat.tla (which reader a file name gets) runs in the same check. The surviving file / '
+        'rolling appender must print (Debug) exactly like its programmatic twin; the size limit is spelled '
+        'differently in each rendering.',
  'C15': 'The refresh thread itself is covered impl->spec: scripted lifetimes of the real init_file thread (hook '
         'reloader.sleep) are validated as traces against Reloader.tla (Trace_Reloader.tla): every sleep lasts the '
         'rate of the last applied file. A directed scenario parks a logging thread inside Logger::enabled (hook '
-        'enabled.loaded); the swap scenarios run under a watchdog (a call that never returns is a violation).',
+        'enabled.loaded); the swap scenarios run under a watchdog (a call that never returns is a violation). Half '
+        'of the live scenarios configure a symbolic link that is re-pointed at every edit; long edit / poll '
+        'histories are sampled with TLC -simulate; one long lifetime of reconfigurations per batch of swap traces.',
  'C16': 'Every other history builds the whole appender (compound policy, trigger kind `time`) from a configuration '
-        'value. Random-delay bounds up to u64::MAX.',
+        'value. Random-delay bounds up to u64::MAX. Counts of hours / minutes / seconds around 2^31 / 2^32 seconds '
+        'and at the 1000-year maxima (NextTimeBig); lifetimes of 300 arrivals sampled with TLC -simulate.',
  'C17': 'The replay materialises every behaviour five times: 10-byte units with DeleteRoller, 400-byte units with a '
         'two-chunk encoder (straddling the 1 KiB BufWriter), 16-byte units with gzip archives and an appender built '
         'from a configuration value, 12-byte units with the index in a directory component of the archive pattern, '
@@ -340,16 +362,19 @@ EXTRA = {'C01': 'Each configuration additionally runs with failing appenders (no
         'fallback). Rolling.tla also has encoder failures (EncFail: part of a record written, then Err) with the '
         'BufWriter capacity as a parameter. Recorded traces of threads released together by a barrier, and one long '
         'lifetime of 320 / 2400 records per batch, are validated against Rolling.tla (Trace_Rolling.tla). In one '
-        'materialisation the configured path is a symbolic link to the file found at start-up.',
+        'materialisation the configured path is a symbolic link to the file found at start-up. Long behaviours are '
+        'sampled with TLC -simulate.',
  'C18': 'After every append the child writes a marker to the descriptor itself: each record must be on the stream '
         'when its append returns; every row runs with builder- and configuration-built appenders, with and without a '
         'final newline in the pattern. A fourth pattern variant logs a 2 KiB literal behind a newline; after the '
-        'first appender the stream is re-pointed at a file and a second appender is built.',
+        'first appender the stream is re-pointed at a file and a second appender is built. A third pattern variant '
+        'puts two highlight groups directly next to each other inside a right-aligned group.',
  'C19': 'A fifth site rolls three times through a window of two with the index before the reference (an expansion '
         "containing '/' puts the index into a directory component). The environment holds a variable with an "
-        'ill-formed name.',
+        'ill-formed name. A sixth site uses a relative path (reference at byte 0) in a scratch working directory.',
  'C20': 'Junk units include long ones (7..257 letters, a 2-, 3- or 4-byte letter at every place). Junk units with '
-        'doubled plural endings and one letter too many.'}
+        'doubled plural endings and one letter too many. Every interval literal also builds the `time` trigger '
+        '(accepted exactly between one unit and 1000 years, never a panic); junk units up to 257 letters.'}
 
 NOT_YET = "check not built yet in this round (planned, see DESIGN.md section 7)"
 
